@@ -70,7 +70,7 @@ class C02(Prop):
     ID = "C02"
     PROPS_FILE = "Props/C02.v"
     CORR_MODULE = "Comb.Corr"
-    MAX_WORKERS = 8
+    MAX_WORKERS = 4
     COQ_SHARD = 60
     CASE_TIMEOUT = 120
     LEVEL = "proof"
@@ -97,7 +97,8 @@ class C02(Prop):
                   "C02_nested_cartesian_partial with the well-formedness of the list of inner combinations as a "
                   "hypothesis stated on the specification; C02_nested_dot_exactly_one_partial: as a bag, exactly one "
                   "flattened combination per inner combination joined with the broadcast tokens; order independence of "
-                  "the nested run is not stated as a theorem). Three _refuted theorems exhibit the input classes in which "
+                  "the nested run (inner dot product): C02_order_independent_nested_partial; "
+                  "C02_nested_cartesian_exactly_one_partial: the bag for the inner cartesian product). Three _refuted theorems exhibit the input classes in which "
                   "the faithful model breaks the property text (a tag and its ancestor on one port of a dot product; a "
                   "cartesian combinator with an inner combinator; a cartesian combinator over tokens of different depth). "
                   "NOT proved: several tag levels at one combinator (per-port antichains in general), trees deeper "
